@@ -392,6 +392,23 @@ func checkC04(c *CaseC04, fl *Fails) {
 	}
 }
 
+// crossTiling tiles b exactly with pieces none of which is the finest on both axes: one vertical half as four quadrants
+// (h+1, v+1), the other half as two slabs (h, v+2) - lowerQuads chooses which half gets the quadrants.
+func crossTiling(b ref.Box, lowerQuads bool) []ref.Box {
+	var out []ref.Box
+	q, s := b.F*2, b.F*2+1
+	if !lowerQuads {
+		q, s = b.F*2+1, b.F*2
+	}
+	for x := int64(0); x < 2; x++ {
+		for y := int64(0); y < 2; y++ {
+			out = append(out, ref.Box{H: b.H + 1, X: b.X*2 + x, Y: b.Y*2 + y, V: b.V + 1, F: q})
+		}
+	}
+	out = append(out, ref.Box{H: b.H, X: b.X, Y: b.Y, V: b.V + 2, F: s * 2}, ref.Box{H: b.H, X: b.X, Y: b.Y, V: b.V + 2, F: s*2 + 1})
+	return out
+}
+
 // c04RegionCells bounds the number of unit cells SameRegion would enumerate for the two lists.
 func c04RegionCells(a, b []ref.Box) int64 {
 	H1, V1 := ref.MaxZooms(a)
@@ -410,6 +427,20 @@ func c04RegionCells(a, b []ref.Box) int64 {
 }
 
 func sweepC04(tier string, emit func(*CaseC04)) {
+	// exact tilings in which no member is the finest on both axes (quadrants in one half, slabs in the other), in
+	// several orders, above and below ground
+	for _, b := range []ref.Box{{H: 3, X: 2, Y: 5, V: 4, F: -3}, {H: 3, X: 2, Y: 5, V: 4, F: 2}, {H: 0, X: 0, Y: 0, V: 0, F: -1}, {H: 20, X: 931277, Y: 412899, V: 12, F: 0}, {H: 30, X: 5, Y: 7, V: 33, F: -1}} {
+		for _, lower := range []bool{true, false} {
+			tl := crossTiling(b, lower)
+			emit(&CaseC04{Boxes: tl, H: b.H, V: b.V})
+			rev := make([]ref.Box, len(tl))
+			for i := range tl {
+				rev[len(tl)-1-i] = tl[i]
+			}
+			emit(&CaseC04{Boxes: rev, H: b.H, V: b.V})
+			emit(&CaseC04{Boxes: []ref.Box{tl[4], tl[0], tl[5], tl[1], tl[2], tl[3]}, H: b.H, V: b.V})
+		}
+	}
 	// targets far above a single fine input: every 2*dh+dv from 20 to 105 (word-size boundaries of a cell count)
 	for dh := int64(0); dh <= 35; dh++ {
 		for dv := int64(0); dv <= 35; dv++ {
